@@ -7,6 +7,8 @@ import (
 	"strings"
 
 	"verifmc/core"
+
+	"github.com/LemoFoundationLtd/lemochain-core/common"
 )
 
 // ---------------------------------------------------------------------------------------------
@@ -200,6 +202,26 @@ func runTermShard(i, n int, r *core.Result) {
 		w.close()
 		r.Add("term_histories", 1)
 		r.Add("evaluations", 1)
+		// lagging confirms: histories with at most one non-empty block of the plain scenarios A and B
+		// are executed once more with the confirms of the two blocks before the reward block held back
+		// until the reward block is confirmed (the stable block stays at the snapshot block meanwhile).
+		// The oracle runs on these blocks too. That the reward block itself then differs from the one
+		// of the fully confirmed run is C01 material (the refund list is read from an index written
+		// when blocks become stable): counted, not asserted.
+		// (not with the restart letter: a restart forgets unconfirmed blocks, the node would have to sync them again)
+		if (sc.name == "A" || sc.name == "B") && nonEmpty(h) <= 1 && !strings.Contains(strings.Join(h, " "), restartLetter) {
+			w2 := t.thaw()
+			first := uint32(len(sc.prefix)) + 1
+			w2.holdConfirms = map[uint32]bool{first + 2: true, first + 3: true}
+			runTermBlocks(w2, sc, h, len(sc.prefix), len(sc.prefix)+sc.window, r)
+			w2.close()
+			r.Add("term_histories_with_lagging_confirms", 1)
+			reward := first + 4
+			if a, b := w.hashes[reward], w2.hashes[reward]; a != b && a != (common.Hash{}) && b != (common.Hash{}) {
+				r.Add("term_reward_block_depends_on_local_stable_pointer(not asserted, C01 material)", 1)
+				r.Note("phase T: the reward block differs when the confirms of the two blocks before it arrive late (refund list = stable-only index) || %v", h)
+			}
+		}
 		if k%997 == 0 {
 			r.Sample(map[string]interface{}{"term_history": h})
 		}
@@ -244,6 +266,16 @@ func replayTerm(c termCase) int {
 		failed += len(r.Violations)
 	}
 	return failed
+}
+
+func nonEmpty(h []string) int {
+	n := 0
+	for _, l := range h[1:] {
+		if l != "-" {
+			n++
+		}
+	}
+	return n
 }
 
 // compressNotes folds the per-history notes of phase T (one per worker and occurrence) into one line
